@@ -278,7 +278,6 @@ type orec struct {
 	negTTL    int64 // kind d: min(SOA TTL, SOA minimum) of the denial, -1 otherwise
 	lastShown int64
 	mark      int
-	holds     map[string]bool // the pieces whose records the stored reply carried at admission (its own copies)
 }
 
 type slotKey struct {
@@ -953,16 +952,6 @@ func recordlessTerminal(recs []recTok, nx bool) string {
 	return last
 }
 
-// heldBy: one of the cached pieces consumed so far stored a reply that carried piece t.
-func heldBy(holders []*orec, t string) bool {
-	for _, o := range holders {
-		if o.holds[t] {
-			return true
-		}
-	}
-	return false
-}
-
 // chainAfterOrSelf: non-empty iff tok is a piece of the composed reply.
 func chainAfterOrSelf(recs []recTok, tok string) []string {
 	for _, r := range recs {
@@ -1031,7 +1020,6 @@ func (h *histT) register(chs []change, script map[string]*specT, recs []recTok, 
 					holderSeen = true
 				}
 			}
-			var holders []*orec // the cached pieces consumed so far, in chain order
 			for _, t := range chainAfter(recs, c.k.tok) {
 				if !isNameTok(t) && t[0] != 's' && t[0] != 'd' && t[0] != 't' {
 					continue
@@ -1045,18 +1033,10 @@ func (h *histT) register(chs []change, script map[string]*specT, recs []recTok, 
 							continue
 						}
 						seen[r.mark] = true
-						if r.mark < 0 && heldBy(holders, t) {
-							// a record that names no admission (a bare CNAME), after a cached
-							// alias piece whose stored reply carried this piece: it is that
-							// entry's own copy, and that entry bounds the composition already —
-							// not whatever is stored under the owner's name today
-							continue
-						}
 						if o, _ := h.originOf(r); o != nil {
 							origins = append(origins, o)
 						}
 					}
-					holders = append(holders, origins...)
 				} else if !holderSeen {
 					seen := map[int]bool{}
 					for _, r := range recs {
@@ -1101,10 +1081,7 @@ func (h *histT) register(chs []change, script map[string]*specT, recs []recTok, 
 				}
 			}
 		}
-		o := &orec{gen: h.gens[c.k], admitV: h.V, life: life, lim: lim, lastShown: -1, mark: sp.mark, holds: map[string]bool{}}
-		for _, t := range chainAfter(recs, c.k.tok) {
-			o.holds[t] = true
-		}
+		o := &orec{gen: h.gens[c.k], admitV: h.V, life: life, lim: lim, lastShown: -1, mark: sp.mark}
 		o.negTTL = -1
 		if sp.kind == 'd' {
 			for _, it := range sp.ns {
